@@ -12,6 +12,7 @@ from concurrent.futures import ThreadPoolExecutor
 
 HERE = os.path.dirname(os.path.abspath(__file__))
 VERIF = os.path.dirname(HERE)
+OUT = os.environ.get("VERIF_OUT", VERIF)   # where evidence/ and replays/ are written (tests of the machinery redirect it)
 sys.path.insert(0, HERE)
 
 import workcopy
@@ -50,7 +51,7 @@ def scan_assumptions(text):
 
 
 def write_replay(pid, obligation, body):
-    d = os.path.join(VERIF, "replays", pid)
+    d = os.path.join(OUT, "replays", pid)
     os.makedirs(d, exist_ok=True)
     safe = re.sub(r"[^A-Za-z0-9_.-]", "_", obligation)
     p = os.path.join(d, safe + ".txt")
@@ -128,11 +129,11 @@ def main():
     tier = args.tier
     t0 = time.time()
     known = [k for k in load_known() if k["property"] == args.pid and k.get("status") == "known"]
-    evid_path = os.path.join(VERIF, "evidence", args.pid + ".json")
+    evid_path = os.path.join(OUT, "evidence", args.pid + ".json")
     os.makedirs(os.path.dirname(evid_path), exist_ok=True)
     if os.path.exists(evid_path):
         os.remove(evid_path)
-    rep_dir = os.path.join(VERIF, "replays", args.pid)
+    rep_dir = os.path.join(OUT, "replays", args.pid)
     if os.path.isdir(rep_dir):
         shutil.rmtree(rep_dir)
     wc = workcopy.make(args.pid)
@@ -140,7 +141,7 @@ def main():
     os.makedirs(outdir, exist_ok=True)
     violations, undecided, known_lines = [], [], []
     v_results, k_results = [], {}
-    gen_dir = os.path.join(VERIF, "evidence", "generated", args.pid)
+    gen_dir = os.path.join(OUT, "evidence", "generated", args.pid)
     if os.path.isdir(gen_dir):
         shutil.rmtree(gen_dir)
     os.makedirs(gen_dir, exist_ok=True)
